@@ -27,12 +27,7 @@ def find_any(data: bytes | memoryview, end_marker: frozenset[int],
 
 
 def get_raw(view: memoryview, *lines: _Lines) -> memoryview:
-    try:
-        start = lines[0][0][0]
-    except IndexError:
-        start = 0
-    try:
-        end = lines[-1][-1][2]
-    except IndexError:
-        end = -1
-    return view[start:end]
+    groups = [group for group in lines if group]
+    if not groups:
+        return view[0:0]
+    return view[groups[0][0][0]:groups[-1][-1][2]]
